@@ -3027,6 +3027,11 @@ class _Simu(_IObserver, _params.Updatable, ABC):
 
         self._Check_dofs(problemType, unknowns)
 
+        if np.size(nodes) == 0:
+            # Nothing is loaded: the nodes given to a line / surface / volume load bound no element of
+            # this mesh (e.g. the part of an MPI rank that only touches the loaded boundary at a node).
+            return
+
         new_Bc = BoundaryCondition(
             problemType, nodes, dofs, unknowns, dofsValues, f"Neumann {description}"
         )
